@@ -213,6 +213,9 @@ func (this *DefaultOutputBitStream) push(val uint64) {
 // Write buffer into underlying stream
 func (this *DefaultOutputBitStream) flush() error {
 	if this.Closed() {
+		// Discard the word stored by the refused write: it must neither be
+		// counted as written nor make the next refused write run past the buffer
+		this.position = 0
 		return errors.New("Stream closed")
 	}
 
